@@ -247,6 +247,11 @@ def run(cx):
     # what is advertised and enforced is what the application configured
     from props.shared import config_verbatim
     config_verbatim(cx, "C07.m")
+    # a pending handshake ends only through its own frames or its timer: a frame without a nonce (DISCONNECT) must not
+    # end it, and its timer must come due in time order
+    from props.shared import leave_implies_terminal, heap_order
+    leave_implies_terminal(cx, "C07.n")
+    heap_order(cx, "C07.o", ["event"])
 
 
 SELFTEST = [
